@@ -408,6 +408,16 @@ func (vc *FuncVC) loopWrites(st *State, fr *Frame, lp *loop) *loopWriteSet {
 			ws.hasNext = true
 		case *ssa.Send, *ssa.Select:
 			ws.chans = true
+			if _, isSel := in.(*ssa.Select); isSel {
+				for _, g := range []string{"lastSelIdx", "lastRecvOk", "lastRecv0", "lastRecv1", "lastRecv2"} {
+					ws.ghosts[g] = true
+				}
+				if isTop && top {
+					vc.ruleGhosts(ws, "select", "any")
+				}
+			} else if isTop && top {
+				vc.ruleGhosts(ws, "send", describeValue(in.(*ssa.Send).Chan))
+			}
 		case *ssa.Go:
 			ws.alloc = true
 			ws.ghosts["spawned"] = true
@@ -443,6 +453,9 @@ func (vc *FuncVC) loopWrites(st *State, fr *Frame, lp *loop) *loopWriteSet {
 				switch b.Name() {
 				case "append":
 					ws.alloc = true
+					if isTop && top {
+						vc.ruleGhosts(ws, "call", "builtin.append")
+					}
 					es := w.sortOf(cc.Args[0].Type().Underlying().(*types.Slice).Elem())
 					hn, hs := elemsHeap(es)
 					if top && definedOutside(cc.Args[0], lp) {
@@ -708,6 +721,8 @@ func (vc *FuncVC) funcValueWrites(ws *loopWriteSet, cc *ssa.CallCommon, lp *loop
 			hw := heapWrite{heap: fieldHeapName(nt, f), sort: arraySort(SInt, w.sortOf(f.Type()))}
 			if top && definedOutside(a, lp) {
 				hw.ref = a
+			} else if fa := stableFieldLoad(a, lp); top && fa != nil {
+				hw.viaField = fa
 			} else {
 				hw.whole = true
 			}
